@@ -368,7 +368,7 @@ def min_max(minimum: Number, maximum: Number) -> UncertainNumber | Pbox:
     )
 
 
-def min_mean(minimum, mean, steps=Params.steps) -> UncertainNumber | Pbox:
+def min_mean(minimum, mean, steps=None) -> UncertainNumber | Pbox:
     """Nonparametric pbox construction based on constraint of minimum and mean
 
     args:
@@ -390,6 +390,8 @@ def min_mean(minimum, mean, steps=Params.steps) -> UncertainNumber | Pbox:
         >>> min_mean(0, 1)  # return a UncertainNumber
         >>> min_mean(0, 1, return_construct=True)  # return a Pbox
     """
+    if steps is None:  # the configured discretisation at call time, not at import time
+        steps = Params.steps
     jjj = np.array([j / steps for j in range(1, steps - 1)] + [1 - 1 / steps])
     right = [((mean - minimum) / (1 - j) + minimum) for j in jjj]
 
@@ -403,7 +405,7 @@ def min_mean(minimum, mean, steps=Params.steps) -> UncertainNumber | Pbox:
 def max_mean(
     maximum: Number,
     mean: Number,
-    steps=Params.steps,
+    steps=None,
 ) -> UncertainNumber | Pbox:
     # TODO no __neg__
     """Nonparametric pbox construction based on constraint of maximum and mean
@@ -425,10 +427,12 @@ def max_mean(
     example:
         >>> max_mean(2, 1)  # return a UncertainNumber
     """
+    if steps is None:  # the configured discretisation at call time, not at import time
+        steps = Params.steps
     return min_mean(-maximum, -mean).__neg__()
 
 
-def mean_std(mean: Number, std: Number, steps=Params.steps) -> UncertainNumber | Pbox:
+def mean_std(mean: Number, std: Number, steps=None) -> UncertainNumber | Pbox:
     """Nonparametric pbox construction based on constraint of mean and std
 
     args:
@@ -450,6 +454,8 @@ def mean_std(mean: Number, std: Number, steps=Params.steps) -> UncertainNumber |
     example:
         >>> mean_std(1, 0.5)
     """
+    if steps is None:  # the configured discretisation at call time, not at import time
+        steps = Params.steps
     iii = [1 / steps] + [i / steps for i in range(1, steps - 1)]
     jjj = [j / steps for j in range(1, steps - 1)] + [1 - 1 / steps]
 
@@ -489,7 +495,7 @@ def min_max_mean(
     minimum: Number,
     maximum: Number,
     mean: Number,
-    steps: int = Params.steps,
+    steps: int = None,
 ) -> UncertainNumber | Pbox:
     # TODO var is missing
     """Generates a distribution-free p-box based upon the minimum, maximum and mean of the variable
@@ -513,6 +519,8 @@ def min_max_mean(
     example:
         >>> min_max_mean(0, 2, 1)
     """
+    if steps is None:  # the configured discretisation at call time, not at import time
+        steps = Params.steps
     mid = (maximum - mean) / (maximum - minimum)
     ii = [i / steps for i in range(steps)]
     left = [
@@ -534,7 +542,7 @@ def min_max_mean(
 def pos_mean_std(
     mean: Number,
     std: Number,
-    steps=Params.steps,
+    steps=None,
 ) -> Pbox:
     """Generates a positive distribution-free p-box based upon the mean and standard deviation of the variable
 
@@ -553,6 +561,8 @@ def pos_mean_std(
         - For low-level controls, if `return_construct=True` is specified, a `Pbox` is returned.
 
     """
+    if steps is None:  # the configured discretisation at call time, not at import time
+        steps = Params.steps
     iii = [1 / steps] + [i / steps for i in range(1, steps - 1)]
     jjj = [j / steps for j in range(1, steps - 1)] + [1 - 1 / steps]
 
@@ -572,7 +582,7 @@ def min_max_mode(
     minimum: Number,
     maximum: Number,
     mode: Number,
-    steps: int = Params.steps,
+    steps: int = None,
 ) -> UncertainNumber | Pbox:
     """Nonparametric pbox construction based on constraint of mean and var
 
@@ -594,6 +604,8 @@ def min_max_mode(
     example:
         >>> min_max_mode(0, 2, 1)  # return a UncertainNumber
     """
+    if steps is None:  # the configured discretisation at call time, not at import time
+        steps = Params.steps
     if minimum == maximum:
         return min_max(minimum, maximum)
 
@@ -614,7 +626,7 @@ def min_max_median(
     minimum: Number,
     maximum: Number,
     median: Number,
-    steps: int = Params.steps,
+    steps: int = None,
 ) -> UncertainNumber | Pbox:
     """Generates a distribution-free p-box based upon the minimum, maximum and median of the variable
 
@@ -637,6 +649,8 @@ def min_max_median(
         >>> min_max_median(0, 2, 1)  # return a UncertainNumber
 
     """
+    if steps is None:  # the configured discretisation at call time, not at import time
+        steps = Params.steps
     if minimum == maximum:
         return min_max(minimum, maximum)
 
